@@ -41,6 +41,8 @@ assumptions(PROP, [
     "come from the harness' own closed form",
     "for k_2 = inf and N > ND the life is not finite on the curve: load(N) = SD is asserted, cycles(load(N)) = N is not",
     "vectorised vs scalar evaluation may differ in the last bits (numpy pow): broadcast clause uses rtol 1e-12",
+    "integer-typed numbers (python int, np.int64, int64 arrays / Series) are whole-number loads and cycle numbers >= 1; they must give "
+    "the numbers of the float evaluation",
     "target failure probability given as a pandas Series is outside the domain (the API documents a float; an ndarray is tested)",
 ])
 
@@ -194,6 +196,22 @@ def _label_curve(c, ctx):
     ctx.label("native:" + ("default" if c["p0"] is None else "0.5" if c["p0"] == 0.5 else "other"))
 
 
+NUM = st.sampled_from(["float", "float", "int", "np.int64"])
+
+
+def _typed(x, num):
+    """the number as the Python/numpy type the case asks for (integer types: x is a whole number)"""
+    if num == "int":
+        return int(x)
+    if num == "np.int64":
+        return np.int64(x)
+    return float(x)
+
+
+def _whole(x):
+    return float(max(1, round(x)))
+
+
 def _kw(p):
     return {} if p is None else {"failure_probability": p}
 
@@ -206,7 +224,7 @@ def _peff(p):
 @st.composite
 def _inverse_cases(draw, tier):
     return {"curve": draw(curves()), "p": draw(st.one_of(st.none(), PROBS)), "same_as_native": draw(st.integers(0, 3)) == 0,
-            "load": draw(SPEC), "cycles": draw(NSPEC), "acc": draw(st.sampled_from(["woehler", "fatigue"]))}
+            "load": draw(SPEC), "cycles": draw(NSPEC), "acc": draw(st.sampled_from(["woehler", "fatigue"])), "num": draw(NUM)}
 
 
 @subcheck(PROP, "inverse", strategy=_inverse_cases, quick=4000, thorough=150000,
@@ -226,11 +244,16 @@ def inverse(case, ctx):
     if pe != 0.5 or ref.p0 != 0.5 or _near(case["load"]) or _near(case["cycles"]):
         ctx.nontrivial()
 
+    # integer-typed scalars (python int, np.int64): whole-number loads and cycle numbers, passed as that type
+    num = case.get("num", "float")
+    ctx.label("num:" + num)
     # load -> cycles -> load
     S = _resolve(case["load"], SDp)
+    if num != "float":
+        S = _whole(S)
     above = S >= SDp
     ctx.label("load:" + ("at_knee" if S == SDp else "above" if above else "below"))
-    N = _f(acc.cycles(S, **_kw(p)))
+    N = _f(acc.cycles(_typed(S, num), **_kw(p)))
     want = ref.cycles(S, pe, above)
     if not _close(N, want):
         raise Violation("cycles(%r, P=%r) = %r, closed form %r (SD_P=%r, side=%s)" % (S, pe, N, want, SDp, "above" if above else "below"),
@@ -244,9 +267,11 @@ def inverse(case, ctx):
 
     # cycles -> load -> cycles
     N0 = _resolve(case["cycles"], NDp)
+    if num != "float":
+        N0 = _whole(N0)
     beyond = N0 > NDp
     ctx.label("cycles:" + ("at_knee" if N0 == NDp else "beyond" if beyond else "before"))
-    L = _f(acc.load(N0, **_kw(p)))
+    L = _f(acc.load(_typed(N0, num), **_kw(p)))
     want = ref.load(N0, pe, beyond)
     if not _close(L, want):
         raise Violation("load(%r, P=%r) = %r, closed form %r (ND_P=%r)" % (N0, pe, L, want, NDp), bucket="inverse:load-closed-form")
@@ -644,7 +669,8 @@ def scatter_conversion(case, ctx):
 @st.composite
 def _bc_cases(draw, tier):
     layout = draw(st.sampled_from(["series_x_array", "series_x_list_int", "series_x_series", "series_x_series_int", "frame_x_scalar",
-                                   "frame_x_array", "frame_x_series_cross", "frame_x_series_aligned", "series_x_parray"]))
+                                   "frame_x_array", "frame_x_series_cross", "frame_x_series_aligned", "series_x_parray",
+                                   "series_x_scalar_int", "series_x_array_int", "frame_x_scalar_int", "frame_x_array_int"]))
     nc = 1 if layout.startswith("series") else draw(st.integers(1, 4))
     cs = [draw(curves()) for _ in range(nc)]
     for c in cs[1:]:
@@ -654,7 +680,7 @@ def _bc_cases(draw, tier):
             c["k_2"] = None
         elif c["k_2"] is None:
             c["k_2"] = "inf"
-    nl = nc if layout in ("frame_x_array", "frame_x_series_aligned") else draw(st.integers(1, 5))
+    nl = nc if layout in ("frame_x_array", "frame_x_array_int", "frame_x_series_aligned") else draw(st.integers(1, 5))
     if "int" in layout:
         vals = [float(v) for v in draw(st.lists(st.integers(1, 20000), min_size=nl, max_size=nl))]
     else:
@@ -662,7 +688,8 @@ def _bc_cases(draw, tier):
     return {"layout": layout, "curves": cs, "vals": vals, "p": draw(st.one_of(st.none(), PROBS)),
             "ps": draw(st.lists(PROBS, min_size=1, max_size=4)),
             "labels": draw(st.permutations(list(range(nl)))), "perm": draw(st.permutations(list(range(nc)))),
-            "fn": draw(st.sampled_from(["cycles", "load"])), "acc": draw(st.sampled_from(["woehler", "fatigue"]))}
+            "fn": draw(st.sampled_from(["cycles", "load"])), "acc": draw(st.sampled_from(["woehler", "fatigue"])),
+            "np_int": draw(st.booleans())}
 
 
 @subcheck(PROP, "broadcast", strategy=_bc_cases, quick=2500, thorough=60000,
@@ -690,8 +717,11 @@ def broadcast(case, ctx):
         if not (got == want or _close(got, want, 1e-12)):
             raise Violation("%s %s: %s gives %r, scalar call %r" % (lay, fn, where, got, want), bucket="broadcast:" + lay + ":" + fn)
 
-    if lay in ("series_x_array", "series_x_list_int"):
-        arg = np.array(vals) if lay == "series_x_array" else list(vals)
+    if lay == "series_x_scalar_int":
+        v = np.int64(vals[0]) if case.get("np_int") else int(vals[0])
+        cmp(_f(getattr(acc, fn)(v, **kw)), scalar(0, vals[0]), "%s scalar %r" % (type(v).__name__, v))
+    elif lay in ("series_x_array", "series_x_list_int", "series_x_array_int"):
+        arg = np.array(vals) if lay == "series_x_array" else np.array(vals, dtype=np.int64) if lay == "series_x_array_int" else list(vals)
         res = getattr(acc, fn)(arg, **kw)
         if isinstance(res, (pd.Series, pd.DataFrame)) or np.asarray(res).shape != (len(vals),):
             raise Violation("%s: result %s shape %r for %d inputs" % (lay, type(res).__name__, np.asarray(res).shape, len(vals)),
@@ -701,20 +731,23 @@ def broadcast(case, ctx):
     elif lay in ("series_x_series", "series_x_series_int"):
         idx = pd.Index(["n%d" % k for k in case["labels"]], name="node")
         arg = pd.Series(vals, index=idx)
+        if "int" in lay and arg.dtype != np.int64:
+            raise AssertionError("harness: integer layout built a %s Series" % arg.dtype)
         res = getattr(acc, fn)(arg, **kw)
         if not isinstance(res, pd.Series) or not res.index.equals(idx):
             raise Violation("%s: result is %s with index %r, input index %r" % (lay, type(res).__name__, getattr(res, "index", None), idx),
                             bucket="broadcast:index:" + lay)
         for j, v in enumerate(vals):
             cmp(float(res.iloc[j]), scalar(0, v), "element %r (%r)" % (idx[j], v))
-    elif lay == "frame_x_scalar":
-        res = np.asarray(getattr(acc, fn)(vals[0], **kw), dtype=float)
+    elif lay in ("frame_x_scalar", "frame_x_scalar_int"):
+        v = vals[0] if lay == "frame_x_scalar" else (np.int64(vals[0]) if case.get("np_int") else int(vals[0]))
+        res = np.asarray(getattr(acc, fn)(v, **kw), dtype=float)
         if res.shape != (len(cs),):
             raise Violation("frame x scalar: result shape %r for %d curves" % (res.shape, len(cs)), bucket="broadcast:shape:" + lay)
         for i in range(len(cs)):
             cmp(float(res[i]), scalar(i, vals[0]), "curve %d" % i)
-    elif lay == "frame_x_array":
-        res = np.asarray(getattr(acc, fn)(np.array(vals), **kw), dtype=float)
+    elif lay in ("frame_x_array", "frame_x_array_int"):
+        res = np.asarray(getattr(acc, fn)(np.array(vals, dtype=np.int64 if "int" in lay else float), **kw), dtype=float)
         if res.shape != (len(cs),):
             raise Violation("frame x array: result shape %r for %d curves" % (res.shape, len(cs)), bucket="broadcast:shape:" + lay)
         for i in range(len(cs)):
